@@ -301,6 +301,28 @@ def step (_ : Unit) (op : List String) (impl : String) : LineOut Unit :=
           | _ => some ("relay-exact", "malformed output " ++ impl)
       { state := (), model := some s!"{hexOfBytes relay} {hexOfBytes direct} {fwd}", monitor := mon }
     | _, _ => { state := (), model := some "bad-op" }
+  | ["metaeff", p, tg] =>
+    -- impl: `<advertised meta before> <advertised meta after> <acc|rej>`; judged by the monitor only:
+    -- a refused tag set leaves the advertised meta data unchanged, an accepted one is what is advertised
+    match p.toNat?, parseTags tg with
+    | some proto, some tags =>
+      let expected : Tags := if proto < 3 then [(kRole, tagLookup (tags.getD []) kRole)] else tags.getD []
+      let enc := showTags expected
+      let mon :=
+        match panicMon impl with
+        | some x => some x
+        | none =>
+          match impl.splitOn " " with
+          | [prev, adv, v] =>
+            if prev == "PANIC-NodeMeta" || adv == "PANIC-NodeMeta" then
+              some ("meta-unadvertisable", "the node can no longer produce its meta data (tags in effect exceed the limit)")
+            else if v == "rej" && prev != adv then some ("meta-refused-but-applied", "a refused tag set changed the advertised meta data")
+            else if v == "acc" && adv != enc then some ("meta-accepted-not-advertised", "an accepted tag set is not what the node advertises")
+            else if v != "acc" && v != "rej" then some ("meta-limit", "malformed output " ++ impl)
+            else none
+          | _ => some ("meta-limit", "malformed output " ++ impl)
+      { state := (), model := none, monitor := mon }
+    | _, _ => { state := (), model := some "bad-op" }
   | ["meta", p, tg] =>
     match p.toNat?, parseTags tg with
     | some proto, some tags =>
